@@ -575,7 +575,7 @@ def run_case(ctx, case):
 
 def run(ctx):
     rng = ctx.rng
-    for case in scripted_num() + [gen_num(rng) for _ in range(ctx.scale(900, 18000))]:
+    for case in scripted_num() + [gen_num(rng) for _ in range(ctx.scale(900, 9000))]:
         nt = run_num(ctx, case)
         ctx.note_case(('num', json.dumps(case, sort_keys=True, default=str)), nontrivial=bool(nt),
                       sample=dict(kind='num', dtype=case['getter']['dtype'], props=B._j(eff_props(case)),
@@ -583,9 +583,9 @@ def run(ctx):
         ctx.count('num')
     if not ctx.model_ok:
         return
-    for case in scripted_azel() + [gen_azel(rng) for _ in range(ctx.scale(350, 7000))]:
+    for case in scripted_azel() + [gen_azel(rng) for _ in range(ctx.scale(350, 3500))]:
         nt = run_azel(ctx, case)
         ctx.note_case(('azel', json.dumps(case, sort_keys=True, default=str)), nontrivial=bool(nt),
                       sample=dict(kind='azel', fmt=case['fmt'], ants=case['ants'], ops=[o[:2] for o in case['ops']][:5]))
         ctx.count('azel')
-    run_scale(ctx, rng, ctx.scale(150, 3000))
+    run_scale(ctx, rng, ctx.scale(150, 1500))
